@@ -379,7 +379,7 @@ def compare_with_model(run: Run, rows):
 
 def gen_case(rng):
     return {
-        "xml": rng.choice(E.DOCS), "seed": rng.randrange(1 << 30), "mode": rng.choice(MODES),
+        "xml": E.pick_doc(rng), "seed": rng.randrange(1 << 30), "mode": rng.choice(MODES),
         "hold_p": rng.choice([0.0, 0.15, 0.3, 0.3, 0.6, 1.0]), "doc_mode": rng.choice(["doc-only", "root-only", "both"]),
         "length": rng.randint(4, 16),
     }
